@@ -557,6 +557,46 @@ def bind_glob(fn, args, kw):
     return r
 
 
+_CTOR_PROJ = {}
+
+
+def _ctor_projection(q):
+    """{field: parameter} for the fields a class's __init__ assigns, on every returning path, directly from a parameter; empty
+    when the class (or a base) defines the field as a method / property / class attribute or hooks attribute access"""
+    key = (id(PROGRAM), q)
+    if key in _CTOR_PROJ:
+        return _CTOR_PROJ[key]
+    _CTOR_PROJ[key] = {}
+    prog = PROGRAM
+    ci = prog.classes[q]
+    fi = prog.lookup_method(ci, '__init__')
+    out = {}
+    if fi is not None and not prog.lookup_method(ci, '__new__') and not any(
+            prog.lookup_method(ci, h) for h in ('__getattr__', '__getattribute__', '__setattr__')):
+        try:
+            saved = PROGRAM
+            fl = FuncLower(prog, fi)
+            term = fl.term()
+        except Exception:
+            term = None
+        if term is not None and fl.params:
+            me = V(fl.params[0])
+            leaves = [x for x in walk(term) if x[0] == 'ret' and len(x) == 3]
+            taken = {n for c in prog.mro(ci) for n in list(c.methods) + list(c.class_attrs)}
+            if leaves and not any(x[0] in ('loop', 'try') for x in walk(term)):
+                cand = None
+                for lf in leaves:
+                    st = {}
+                    for e in lf[2]:
+                        if e[0] == 'setattr' and e[1] == me:
+                            st[e[2]] = e[3]
+                    here = {f: v[1] for f, v in st.items() if v[0] == 'var' and v[1] in fl.params[1:]}
+                    cand = here if cand is None else {f: p for f, p in cand.items() if here.get(f) == p}
+                out = {f: p for f, p in (cand or {}).items() if f not in taken}
+    _CTOR_PROJ[key] = out
+    return out
+
+
 def _has_default(fi, name):
     a = fi.node.args
     allpos = a.posonlyargs + a.args
@@ -1171,7 +1211,7 @@ class FuncLower:
                 return True
             return False
         if not collect(body, []):
-            return None
+            return self._summarise_extreme_by_key(idx, assigned, pos, lw, iter_term, body, rest)
         rest_names = set()
         for stn in rest:
             if isinstance(stn, ast.AST):
@@ -1232,6 +1272,72 @@ class FuncLower:
                 out[name] = ('binop', 'Add', init, call(G('sum'), [('map', lam([p], c), iter_term)]))
         # temporaries and the loop target are dead after the loop
         return out
+
+
+def _extreme_by_key(self, idx, assigned, pos, lw, iter_term, body, rest):
+    """Recognise   d = {}; for x in S: v = V(x); if K(x) not in d or v < d[K(x)]: d[K(x)] = v
+    (the smallest - or with >, the largest - V per key K) and turn it into the grouped form
+    dict((k, min(V(x) for x in g)) for k, g in groupby(sorted(S, key=K), key=K))  - the same dictionary up to the order of its
+    entries. Returns {name: term after the loop} or None."""
+    item = ('phi', idx, '$item')
+    if body[0] != 'if' or body[2][0] != 'continue' or body[3][0] != 'continue' or body[2][2] or body[3][2]:
+        return None
+    rest_names = set()
+    for stn in rest:
+        if isinstance(stn, ast.AST):
+            rest_names |= {n.id for n in ast.walk(stn) if isinstance(n, ast.Name)}
+    vals = [dict((kw[1][1], kw[2]) for kw in b[1][1]) for b in (body[2], body[3])]
+    target = None
+    for name in assigned:
+        phi = ('phi', idx, pos[name])
+        a, b = vals[0].get(pos[name]), vals[1].get(pos[name])
+        if a is None or b is None:
+            return None
+        others = lambda t: any(x[0] == 'phi' and x[1] == idx and x != item for x in walk(t))
+        if a == b and not others(a):
+            if name in rest_names:
+                return None               # a temporary whose last value is used after the loop
+            continue
+        if target is not None:
+            return None
+        keep, upd, cond_keeps = (a, b, True) if a == phi else (b, a, False)
+        if keep != phi or upd[0] != 'setitem' or upd[1] != phi:
+            return None
+        key, val = upd[2], upd[3]
+        if others(key) or others(val) or lw.env.get(name) != ('dict', ()):
+            return None
+        neg = {'Eq': 'NotEq', 'NotEq': 'Eq', 'Lt': 'GtE', 'GtE': 'Lt', 'Gt': 'LtE', 'LtE': 'Gt', 'In': 'NotIn', 'NotIn': 'In'}
+        c = norm(body[1])
+        if c[0] == 'not':
+            c, cond_keeps = c[1], not cond_keeps
+        if c[0] != ('and' if cond_keeps else 'or') or len(c[1]) != 2 or any(x[0] != 'cmp' or x[1] not in neg for x in c[1]):
+            return None
+        parts = list(c[1]) if cond_keeps else [('cmp', neg[x[1]], x[2], x[3]) for x in c[1]]     # when the entry is kept
+        cur = norm(('sub', phi, key))
+        present = ('cmp', 'In', norm(key), phi)
+        if present not in parts:
+            return None
+        test = [x for x in parts if x != present][0]
+        flip = {'Lt': 'Gt', 'Gt': 'Lt', 'LtE': 'GtE', 'GtE': 'LtE'}
+        if test[3] == norm(val) and test[2] == cur and test[1] in flip:
+            test = ('cmp', flip[test[1]], test[3], test[2])
+        # kept when the stored value is already as small (min) / as large (max) as the new one
+        kinds = {'GtE': 'min', 'Gt': 'min', 'LtE': 'max', 'Lt': 'max'}
+        if not (test[2] == norm(val) and test[3] == cur and test[1] in kinds):
+            return None
+        kinds = {test: kinds[test[1]]}
+        target = (name, key, val, kinds[test])
+    if target is None:
+        return None
+    name, key, val, which = target
+    at = lambda t, p_: replace(t, lambda x: V(p_) if x == item else None)
+    g, x, y, z = fresh('grp'), fresh('it'), fresh('it'), fresh('it')
+    grouped = call(G('itertools.groupby'), [call(G('sorted'), [iter_term], [('key', lam([y], at(key, y)))])], [('key', lam([z], at(key, z)))])
+    per = lam([g], ('tuple', (('sub', V(g), C(0)), call(G(which), [call(G('map'), [lam([x], at(val, x)), ('sub', V(g), C(1))])]))))
+    return {name: call(G('dict'), [call(G('map'), [per, grouped])])}
+
+
+FuncLower._summarise_extreme_by_key = _extreme_by_key
 
 
 def _observational(callnode):
@@ -1429,7 +1535,7 @@ def norm(t):
         c = t[1]
         if c[0] == 'const':
             return t[2] if c[1] else t[3]
-        if t[2] == t[3]:
+        if t[2] == t[3] or (t[2][0] == t[3][0] and len(t[2]) == len(t[3]) and aeq(t[2], t[3])):
             return t[2]
         if c[0] in ('map', 'filter', 'concat'):
             # a list used as a test is true iff it is not empty
@@ -1551,6 +1657,11 @@ def norm(t):
         return out[0] if len(out) == 1 else (k, tuple(out))
     if k == 'attr':
         o = t[1]
+        if o[0] == 'call' and o[1][0] == 'glob' and not o[2] and PROGRAM is not None and o[1][1] in PROGRAM.classes:
+            # K(.., p=a, ..).f is a where K's constructor stores its parameter p in field f on every path (read off the code)
+            proj = _ctor_projection(o[1][1])
+            if t[2] in proj and proj[t[2]] in dict(o[3]):
+                return dict(o[3])[proj[t[2]]]
         if o[0] == 'upd':
             # read of an attribute of a functionally updated local object
             cur = o
@@ -1606,6 +1717,23 @@ def norm(t):
             # `return a if c else b`  ==  `if c: return a` / `return b`
             return norm(('if', v[1], ('ret', v[2], t[2]), ('ret', v[3], t[2])))
         return t
+    if k == 'try':
+        hs = []
+        for h in t[2]:
+            cls, body = h[1], h[2]
+            if cls == C('bare'):
+                # `except:` and `except Exception:` differ only for KeyboardInterrupt / SystemExit / GeneratorExit
+                cls = G('Exception')
+            if body[0] == 'raise' and body[1] == C('reraise') and cls[0] == 'glob':
+                body = ('raise', cls, body[2])           # `except X: raise` raises an X
+            hs.append(('handler', cls, body))
+        out = []
+        for i, h in enumerate(hs):
+            if i + 1 < len(hs) and hs[i + 1][1] == G('Exception') and h[2] == hs[i + 1][2] and h[1][0] == 'glob' \
+                    and h[1][1] not in ('KeyboardInterrupt', 'SystemExit', 'GeneratorExit', 'BaseException'):
+                continue                                 # subsumed by the catch-all that follows with the same body
+            out.append(h)
+        return ('try', t[1], tuple(out))
     if k == 'raise':
         v = t[1]
         # the exception class matters, the message does not
@@ -1650,6 +1778,15 @@ def norm_call(fn, args, kw):
         g = fn[1]
         if g == 'maz.compose' and not kw:
             return compose(args)
+        if g == '__nonempty__' and len(args) == 1 and not kw:
+            # only whether the sequence is empty is observed: wrappers that keep emptiness are dropped
+            a = args[0]
+            while a[0] == 'call' and a[1][0] == 'glob' and len(a[2]) >= 1 and a[1][1] in (
+                    'list', 'tuple', 'sorted', 'set', 'frozenset', 'reversed', 'iter', 'dict.fromkeys',
+                    'more_itertools.unique_everseen', 'more_itertools.unique_justseen', 'collections.Counter',
+                    'collections.OrderedDict.fromkeys'):
+                a = a[2][0]
+            return call(fn, [a])
         if g == 'maz.compose_pair' and len(args) == 2:
             return compose(args)
         if g == 'maz.fnmap' and not kw:
@@ -1795,6 +1932,17 @@ def norm_call(fn, args, kw):
                 src = src[2]
             if m[1][2] == ('sub', V(p0), C(0)) and src[0] == 'call' and src[1] == G('enumerate') and len(src[2]) == 1:
                 return m
+        if g == 'numpy.array' and len(args) == 1 and kw in ([('dtype', G('numpy.int64'))], [('dtype', G('int'))]) \
+                and args[0][0] == 'map' and args[0][1][0] == 'lam' and len(args[0][1][1]) == 1:
+            # an array of positions taken from enumerate(...) is an int64 array already (the explicit dtype only matters for the
+            # empty list, whose default dtype is float64: the contents - none - are the same)
+            m = args[0]
+            p0 = m[1][1][0]
+            src = m[2]
+            while src[0] == 'filter':
+                src = src[2]
+            if m[1][2] == ('sub', V(p0), C(0)) and src[0] == 'call' and src[1] == G('enumerate') and len(src[2]) == 1:
+                return call(G('numpy.array'), [m])
         if g in ('numpy.dot',) and len(args) == 2 and not kw:
             return call(G('numpy.matmul'), args)
         if g == 'numpy.array' and len(args) == 1 and not kw and args[0][0] == 'call' and args[0][1] == G('numpy.array') \
